@@ -16,7 +16,7 @@ RULE = ('Hypothesis synthetic survey trees written per case with astropy: 1-4 pl
         'Oracle: decode the expected value of every returned element from the request.  spec_append: blocks (1-4)x(1-12), pixshift -5..5, int and '
         'float dtypes: both blocks present at the documented offsets, zeros elsewhere.  Non-trivial = >= 2 plate-MJD groups with different '
         'pixel counts, requests not sorted by group, >= 1 repeated plate.')
-ASSUMPTIONS = ['explicit-request calling conventions only (the all-fibres mode needs a platelist file); topdir=/run1d= keywords are not used',
+ASSUMPTIONS = ['explicit-request calling conventions only: vectors, scalar plate + fibres, scalars, MJD omitted (the all-fibres mode is not a request vector and currently cannot run, see DESIGN.md O9); topdir=/run1d= keywords are not used',
                'spZbest (and photoPlate when written) exists for every plate-MJD of a tree',
                'files are written by the harness with astropy.io.fits in the spPlate HDU layout (0 flux, 1 invvar, 2 andmask, 3 ormask, 4 disp, 5 plugmap, 6 sky)']
 
@@ -31,18 +31,28 @@ def val(plate, mjd, hdu, fib, pix):
 def tree_case(draw):
     nplates = draw(st.sampled_from([2, 3, 1, 4]))
     plates = draw(st.lists(st.integers(266, 9999), min_size=nplates, max_size=nplates, unique=True))
+    # 'all-fibres' (fiber=None) is implemented below but not sampled: number_of_fibers() cannot work for BOSS-era plates on NumPy 2
+    # (assigns a 1-element array to a scalar slot); the mode is not a (plate, MJD, fibre) request vector -> observation O9 in DESIGN.md
+    conv = draw(st.sampled_from(['vectors', 'vectors', 'vectors', 'scalar-plate', 'scalar-all', 'mjd-omitted']))
     obs = []
     for p in plates:
         nm = draw(st.sampled_from([1, 1, 2]))
-        for m in draw(st.lists(st.integers(51600, 58000), min_size=nm, max_size=nm, unique=True)):
+        # the all-fibres mode looks the fibre count up in platelist.fits for BOSS-era plates (MJD >= 55025) and assumes 640 before
+        for m in draw(st.lists(st.integers(55100 if conv == 'all-fibres' else 51600, 58000), min_size=nm, max_size=nm, unique=True)):
             obs.append(dict(plate=p, mjd=m, nf=draw(st.integers(3, 12)), npix=draw(st.integers(10, 40)),
                             c0=3.5 + 0.1 * draw(st.floats(0, 1)), c1=draw(st.sampled_from([1e-4, 1.0001e-4, 2e-4]))))
-    conv = draw(st.sampled_from(['vectors', 'vectors', 'vectors', 'scalar-plate', 'scalar-all', 'mjd-omitted']))
     nreq = draw(st.sampled_from([6, 10, 3, 15, 8, 12, 4, 2, 1]))
     if conv in ('scalar-plate', 'scalar-all'):
         g = draw(st.integers(0, len(obs) - 1))
         nreq = 1 if conv == 'scalar-all' else nreq
         req = [[g, draw(st.integers(1, obs[g]['nf']))] for _ in range(nreq)]
+    elif conv == 'all-fibres':
+        # a set of distinct plates (scalar when one); every fibre of the latest MJD of each, plates in ascending order
+        chosen = sorted(draw(st.lists(st.sampled_from(plates), min_size=1, max_size=len(plates), unique=True)))
+        req = []
+        for p in chosen:
+            g = max((i for i, o in enumerate(obs) if o['plate'] == p), key=lambda i: obs[i]['mjd'])
+            req += [[g, f] for f in range(1, obs[g]['nf'] + 1)]
     else:
         req = []
         for _ in range(nreq):
@@ -53,6 +63,12 @@ def tree_case(draw):
 
 def write_tree(top, case):
     from astropy.io import fits
+    if case['conv'] == 'all-fibres':
+        n = len(case['obs'])
+        pl = np.zeros(n, dtype=[('PLATE', 'i4'), ('MJD', 'i4'), ('RUN2D', 'S10'), ('RUN1D', 'S10'), ('N_TOTAL', 'i4')])
+        for i, o in enumerate(case['obs']):
+            pl[i] = (o['plate'], o['mjd'], RUN2D, RUN1D, o['nf'])
+        fits.HDUList([fits.PrimaryHDU(), fits.BinTableHDU(pl)]).writeto(os.path.join(top, 'platelist.fits'))
     for o in case['obs']:
         plate, mjd, nf, npix = o['plate'], o['mjd'], o['nf'], o['npix']
         d = top if case['config'] == 'path' else os.path.join(top, RUN2D, '%04d' % plate)
@@ -112,6 +128,9 @@ def tree_body(case):
             r = call(readspec, plates, mjd=mjds, fiber=fibs, **kw)
         elif conv == 'mjd-omitted':
             r = call(readspec, plates, fiber=fibs, **kw)
+        elif conv == 'all-fibres':
+            uniq = sorted(set(int(p) for p in plates))
+            r = call(readspec, np.array(uniq, dtype='i4') if len(uniq) > 1 else uniq[0], **kw)
         elif conv == 'scalar-plate':
             r = call(readspec, int(plates[0]), mjd=int(mjds[0]), fiber=fibs if len(fibs) > 1 else int(fibs[0]), **kw)
         else:
